@@ -97,9 +97,24 @@ def run_case(case):
     u = ctypes.c_uint
     jac = sysname == 'jacobi'
 
+    # The Jacobi routines take the masses from a separate array (WHFast hands in variational particles, whose own m is 0 or a mass
+    # variation, together with the real particles as mass array): in half of the Jacobi cases the particle arrays carry DECOY masses and the
+    # true masses come only through p_mass - every result must be the same as with the masses in place.
+    sepmass = jac and N >= 1 and (case.get('seed', 0) % 2 == 1)
+    pm = fill()
+    if sepmass:
+        counters['jacobi_cases_with_separate_mass_array'] = counters.get('jacobi_cases_with_separate_mass_array', 0) + 1
+        decoy = [0.0 if (i + case.get('seed', 0)) % 3 == 0 else float(M[(i + 1) % N]) * 1.7 + 0.3 for i in range(N)]
+        for i in range(N):
+            src[i].m = decoy[i]
+        _blank0 = blank
+
+        def blank(keep_m=None):
+            return _blank0(keep_m=decoy if keep_m is not None else None)
+
     def call(name, a, b):
         if jac:
-            fn(name)(a, b, src, u(N), u(Na))
+            fn(name)(a, b, pm, u(N), u(Na))
         else:
             fn(name)(a, b, u(N), u(Na))
 
